@@ -184,6 +184,17 @@ func genC18(g *Gen) {
 			g.Emit("oncelive", []string{itoa(life)}, []string{"spin " + n})
 		}
 	}
+	// Before on a cache whose entries expire: calls before and after the entry of the last run has expired
+	for _, n := range []int{1, 2, 3} {
+		if g.Mine() {
+			ops := []string{}
+			for i := 0; i < n+1; i++ {
+				ops = append(ops, "call")
+			}
+			ops = append(ops, "sleep 10", "call", "sleep 15", "call", "call", "sleep 40", "call")
+			g.Emit("before", []string{itoa(n), "20", "100"}, ops)
+		}
+	}
 	maxN, maxCalls, maxScript := 8, 12, 6
 	if g.Thorough() {
 		maxScript = 8
